@@ -28,7 +28,7 @@ def main(argv=None):
     pi = sub.add_parser("replay-inner")
     pi.add_argument("path")
     s = sub.add_parser("selftest")
-    s.add_argument("what", choices=["determinism", "sensitivity", "imports", "all"])
+    s.add_argument("what", choices=["determinism", "sensitivity", "seeded", "imports", "all"])
     s.add_argument("--props", default="")
     s.add_argument("--seeds", type=int, default=0)
     s.add_argument("--names", default="")
